@@ -121,6 +121,9 @@ enum Case {
     /// +-m, the others +-0), every other argument of the same type stands in a relation to it (equal, opposite,
     /// parallel, anti-parallel, orthogonal axis, ordinary), scalar arguments take a few plain values
     Related { base: usize, rel: usize, sc: usize },
+    /// argument `pos` uniformly a value next to a power of two (2^k + d, d in {-1, -0.5, 0, 0.5, 1}, both signs): the
+    /// boundaries of integer types and of float precision, where a float -> integer intermediate goes wrong
+    Boundary { pos: usize, bi: usize },
     /// every float-bearing glam argument takes a *structured* value (identity / zero / singular / two equal columns /
     /// 180-degree rotation / permutation matrices; identity, negated identity, half-turn quaternions; axis-aligned,
     /// diagonal, parallel and anti-parallel non-axis vectors ...): product over the arguments (sampled if large)
@@ -164,6 +167,11 @@ fn cases_of(op: &OpDesc, samples: usize) -> Vec<Case> {
             }
         }
     }
+    for &pos in &fpos {
+        for bi in 0..boundary_values().len() {
+            v.push(Case::Boundary { pos, bi });
+        }
+    }
     let total = structured_total(op);
     if total > 0 {
         for combo in 0..total.min(4096) {
@@ -180,6 +188,38 @@ fn cases_of(op: &OpDesc, samples: usize) -> Vec<Case> {
         }
     }
     v
+}
+
+fn boundary_values() -> &'static [f64] {
+    use std::sync::OnceLock;
+    static B: OnceLock<Vec<f64>> = OnceLock::new();
+    B.get_or_init(|| {
+        let mut v = Vec::new();
+        for k in [7, 8, 15, 16, 23, 24, 31, 32, 52, 53, 63, 64, 127, 128] {
+            let p = 2f64.powi(k);
+            for d in [-1.0, -0.5, 0.0, 0.5, 1.0] {
+                v.push(p + d);
+                v.push(-(p + d));
+            }
+        }
+        v
+    })
+}
+
+/// every float element of `v` := x (rounded to the element type)
+fn fill_floats(v: &Val, x: f64) -> Val {
+    match v {
+        Val::F32(_) => Val::F32(x as f32),
+        Val::F64(_) => Val::F64(x),
+        Val::Arr(xs) => Val::Arr(xs.iter().map(|e| fill_floats(e, x)).collect()),
+        Val::Tup(xs) => Val::Tup(xs.iter().map(|e| fill_floats(e, x)).collect()),
+        Val::Slice(xs) => Val::Slice(xs.iter().map(|e| fill_floats(e, x)).collect()),
+        Val::Opt(Some(e)) => Val::Opt(Some(Box::new(fill_floats(e, x)))),
+        g => match g.glam_bits() {
+            Some((t, b)) if matches!(t.elem(), Elem::F32 | Elem::F64) => t.from_bits(&b.iter().map(|_| fbits(t.elem(), x)).collect::<Vec<_>>()),
+            _ => g.clone(),
+        },
+    }
 }
 
 /// Structured values of a float glam type, by index. Lanes are given as small exact numbers; `None` past the end.
@@ -388,6 +428,7 @@ fn make_args(op: &OpDesc, oi: usize, case: &Case, ci: usize, seed: u64) -> Vec<V
                 let mut k = (*lane % cnt) as isize;
                 set_float_elem(&base, &mut k, Some(*li))
             }
+            Case::Boundary { pos, bi } if *pos == i => fill_floats(&gen_arg(op, i, &mut rng, Cls::Ordinary), boundary_values()[*bi]),
             Case::Product { li1, li2 } => {
                 let li = if fpos.first() == Some(&i) { *li1 } else { *li2 };
                 gen_arg(op, i, &mut rng, Cls::Lattice(li))
@@ -497,7 +538,7 @@ fn sweep_op(oi: usize, seed: u64, samples: usize) -> OpResult {
         if seen.insert(d.finish()) {
             res.distinct += 1;
         }
-        if !matches!(case, Case::Sample { .. } | Case::TwoLanes { .. } | Case::Related { .. } | Case::Structured { .. }) {
+        if !matches!(case, Case::Sample { .. } | Case::TwoLanes { .. } | Case::Related { .. } | Case::Structured { .. } | Case::Boundary { .. }) {
             res.lattice_hits += 1;
         }
         res.evals += 1;
